@@ -67,6 +67,11 @@ def run(chk, replay=None):
         i_outs = {int(k.rsplit('.', 1)[1]): v for k, v in r['outs'].items() if k.startswith('out.log.')}
         if it != m['trace'] or i_outs != m['outs'] or r['rc'] != m['status']:
             chk.disagree('request trace / per-host outputs / status', case, {'trace': it, 'outs': {k: v[:80] for k, v in i_outs.items()}, 'rc': r['rc']}, {'trace': m['trace'], 'outs': {k: v[:80] for k, v in m['outs'].items()}, 'rc': m['status']})
+        # the whole command (Model/Job.v, Atlas branch): every file the run leaves in the working directory - the output file itself (created empty) and <out>.<i>
+        mj = atlaslib.model_job(cfg, challenge == 'digest', 200, [h.encode() for h in stripped], [('S', 200, gzb) for _, gzb in payloads], window, now, {gzb: data for data, gzb in payloads}, pre=pre)
+        if it != mj['trace'] or r['outs'] != mj['files'] or r['rc'] != mj['status'] or mj['tmp_left'] != len(r['tmp']):
+            chk.disagree('whole-run result of the Atlas job (trace, files in the working directory, status)', case,
+                         {'trace': it, 'files': {k: v[:60] for k, v in r['outs'].items()}, 'rc': r['rc']}, {'trace': mj['trace'], 'files': {k: v[:60] for k, v in mj['files'].items()}, 'rc': mj['status']})
         # oracle, independent of the model
         if r['rc'] != 0:
             chk.violate('all-succeed world but the run failed', case, tags=['failed']); continue
